@@ -47,10 +47,17 @@ Fixpoint lookup_bypass (ty:Z) (tbl:list (Z * Z * Z)) : Z * Z :=
   | [] => (-1, -1)
   | (t, a, b) :: rest => if t =? ty then (a, b) else lookup_bypass ty rest
   end.
-Definition entry_sniff (zstd_frame:list Z -> bool) (ty:Z) (bytes:list Z) : Z :=
+(* the entries before the repair: a stream with the length of a constant stream was never looked at *)
+Definition entry_sniff_old (zstd_frame:list Z -> bool) (ty:Z) (bytes:list Z) : Z :=
   let '(a, b) := lookup_bypass ty src_bypass_sizes in
   let n := Z.of_nat (length bytes) in
   if (n =? a) || (n =? b) then NONE else sniff zstd_frame bytes.
+(* the entries now: if((cmpSize!=A && cmpSize!=B) || is_lossless_compressed_data(...)!=-1) sniff, else unwrapped
+   (src_entry_resniffs: all ten entries have the second disjunct) *)
+Definition entry_sniff (zstd_frame:list Z -> bool) (ty:Z) (bytes:list Z) : Z :=
+  let '(a, b) := lookup_bypass ty src_bypass_sizes in
+  let n := Z.of_nat (length bytes) in
+  if negb ((n =? a) || (n =? b)) || (src_entry_resniffs && negb (sniff zstd_frame bytes =? NONE)) then sniff zstd_frame bytes else NONE.
 
 (* size of the constant ("within range") stream of each type for SZ_SIZE_TYPE = st: the sizes the
    bypass is meant for *)
